@@ -74,7 +74,7 @@ def replay_history(hist):
             effnc = cnc if kind == 'help' else (nocolor or cnc)
             try:
                 whole = c10_objs.render(objs, kind, conf, nocolor, 'whole')
-                lines = c10_objs.render(objs, kind, conf, nocolor, 'lines')
+                lines = c10_objs.render_linewise(objs, kind, conf, nocolor, whole)
             except Exception as e:
                 events.append({'key': _key(kind, content, effnc), 'nckey': _key(kind, content, True), 'out': 'EXC', 'lines': 'EXC',
                                'stripped': 'EXC:%s' % type(e).__name__, 'esc': False})
@@ -98,6 +98,7 @@ def run(ctx):
     ctx.assumptions += ['printable objects: pretty-printed value, two tables sharing one enum field type (wide and narrow '
                         'columns, all modifiers), record formatter, h-doc help text, an object whose rendering starts with '
                         'an empty line, the git history report of two mock repositories',
+                        'line-wise consumption: every line turned into text at once, all lines collected first, and interleaved with a second rendering of the same object under another configuration (started before / after)',
                         'colour equality is compared on painted cells (character + terminal state), not on raw escape strings',
                         'reference outputs come from one fresh interpreter per (object, configuration content, no_color)']
     kinds = c10_objs.KINDS
